@@ -119,12 +119,16 @@ CountStep(d, w) == IF d.tr = "sq" THEN Mul(w, w) ELSE w
 
 -----------------------------------------------------------------------------
 (* Fill(c, d, x, w): content after fill(datum x, weight w).                 *)
-RECURSIVE Fill(_, _, _, _)
-Fill(c, d, x, w) ==
+RECURSIVE FillM(_, _, _, _, _)
+FillM(c, d, x, w, m) ==
   IF ~Gt(w, Q(0)) THEN c ELSE
   LET e1 == Add(c.e, w) IN
   CASE d.k = "Count" -> [c EXCEPT !.e = Add(@, CountStep(d, w))]
-    [] d.k = "Sum" -> [c EXCEPT !.e = e1, !.s = Add(@, Mul(x[d.q], w))]
+    [] d.k = "Sum" ->
+         (* named deviation Dev_SumNumpyDropsNaN (mode "npsum"): the vectorised Sum counts a row whose
+            quantity is NaN in entries but leaves it out of the sum *)
+         IF m = "npsum" /\ IsNaN(x[d.q]) THEN [c EXCEPT !.e = e1]
+         ELSE [c EXCEPT !.e = e1, !.s = Add(@, Mul(x[d.q], w))]
     [] d.k = "Average" ->
          LET q == x[d.q]
              m0 == IF c.e = Q(0) THEN q ELSE c.mean
@@ -147,54 +151,57 @@ Fill(c, d, x, w) ==
                       !.vals = Put(@, key, IF key \in DOMAIN @ THEN Add(@[key], w) ELSE w)]
     [] d.k = "Bin" ->
          LET q == x[d.q] IN
-         IF IsNaN(q) THEN [c EXCEPT !.e = e1, !.nan = Fill(@, d.nan, x, w)]
-         ELSE IF Lt(q, c.lo) THEN [c EXCEPT !.e = e1, !.under = Fill(@, d.under, x, w)]
-         ELSE IF Ge(q, c.hi) THEN [c EXCEPT !.e = e1, !.over = Fill(@, d.over, x, w)]
+         IF IsNaN(q) THEN [c EXCEPT !.e = e1, !.nan = FillM(@, d.nan, x, w, m)]
+         ELSE IF Lt(q, c.lo) THEN [c EXCEPT !.e = e1, !.under = FillM(@, d.under, x, w, m)]
+         ELSE IF Ge(q, c.hi) THEN [c EXCEPT !.e = e1, !.over = FillM(@, d.over, x, w, m)]
          ELSE LET i == BinIndex(c, q) + 1
-              IN [c EXCEPT !.e = e1, !.vals[i] = Fill(@, d.value, x, w)]
+              IN [c EXCEPT !.e = e1, !.vals[i] = FillM(@, d.value, x, w, m)]
     [] d.k = "SparselyBin" ->
          LET q == x[d.q] IN
-         IF IsNaN(q) THEN [c EXCEPT !.e = e1, !.nan = Fill(@, d.nan, x, w)]
+         IF IsNaN(q) THEN [c EXCEPT !.e = e1, !.nan = FillM(@, d.nan, x, w, m)]
          ELSE LET key == SparseKey(c, q)
                   old == IF key \in DOMAIN c.bins THEN c.bins[key] ELSE Zero(d.value)
-              IN [c EXCEPT !.e = e1, !.bins = Put(@, key, Fill(old, d.value, x, w))]
+              IN [c EXCEPT !.e = e1, !.bins = Put(@, key, FillM(old, d.value, x, w, m))]
     [] d.k = "CentrallyBin" ->
          LET q == x[d.q] IN
-         IF IsNaN(q) THEN [c EXCEPT !.e = e1, !.nan = Fill(@, d.nan, x, w)]
+         IF IsNaN(q) THEN [c EXCEPT !.e = e1, !.nan = FillM(@, d.nan, x, w, m)]
          ELSE LET i == CentralIndex(c.centers, q)
-              IN [c EXCEPT !.e = e1, !.bins[i] = Fill(@, d.value, x, w)]
+              IN [c EXCEPT !.e = e1, !.bins[i] = FillM(@, d.value, x, w, m)]
     [] d.k = "IrregularlyBin" ->
          LET q == x[d.q] IN
-         IF IsNaN(q) THEN [c EXCEPT !.e = e1, !.nan = Fill(@, d.nan, x, w)]
+         IF IsNaN(q) THEN [c EXCEPT !.e = e1, !.nan = FillM(@, d.nan, x, w, m)]
          ELSE LET i == IrrIndex(c.ths, q)
               IN IF i = 0 THEN [c EXCEPT !.e = e1]
-                 ELSE [c EXCEPT !.e = e1, !.bins[i] = Fill(@, d.value, x, w)]
+                 ELSE [c EXCEPT !.e = e1, !.bins[i] = FillM(@, d.value, x, w, m)]
     [] d.k = "Stack" ->
          LET q == x[d.q] IN
-         IF IsNaN(q) THEN [c EXCEPT !.e = e1, !.nan = Fill(@, d.nan, x, w)]
+         IF IsNaN(q) THEN [c EXCEPT !.e = e1, !.nan = FillM(@, d.nan, x, w, m)]
          ELSE [c EXCEPT !.e = e1,
-                        !.bins = [i \in DOMAIN @ |-> IF Ge(q, c.ths[i]) THEN Fill(@[i], d.value, x, w)
+                        !.bins = [i \in DOMAIN @ |-> IF Ge(q, c.ths[i]) THEN FillM(@[i], d.value, x, w, m)
                                                      ELSE @[i]]]
     [] d.k = "Categorize" ->
          LET key == CatOf(x[d.q])
              old == IF key \in DOMAIN c.bins THEN c.bins[key] ELSE Zero(d.value)
-         IN [c EXCEPT !.e = e1, !.bins = Put(@, key, Fill(old, d.value, x, w))]
+         IN [c EXCEPT !.e = e1, !.bins = Put(@, key, FillM(old, d.value, x, w, m))]
     [] d.k = "Fraction" ->
          LET ws == Mul(x[d.q], w)
-         IN [c EXCEPT !.e = e1, !.den = Fill(@, d.value, x, w),
-                      !.num = IF Gt(ws, Q(0)) THEN Fill(@, d.value, x, ws) ELSE @]
+         IN [c EXCEPT !.e = e1, !.den = FillM(@, d.value, x, w, m),
+                      !.num = IF Gt(ws, Q(0)) THEN FillM(@, d.value, x, ws, m) ELSE @]
     [] d.k = "Select" ->
          LET ws == Mul(x[d.q], w)
-         IN [c EXCEPT !.e = e1, !.cut = IF Gt(ws, Q(0)) THEN Fill(@, d.cut, x, ws) ELSE @]
+         IN [c EXCEPT !.e = e1, !.cut = IF Gt(ws, Q(0)) THEN FillM(@, d.cut, x, ws, m) ELSE @]
     [] d.k \in {"Label", "UntypedLabel"} ->
-         [c EXCEPT !.e = e1, !.pairs = [key \in DOMAIN @ |-> Fill(@[key], d.pairs[key], x, w)]]
+         [c EXCEPT !.e = e1, !.pairs = [key \in DOMAIN @ |-> FillM(@[key], d.pairs[key], x, w, m)]]
     [] d.k \in {"Index", "Branch"} ->
-         [c EXCEPT !.e = e1, !.vals = [i \in DOMAIN @ |-> Fill(@[i], d.vals[i], x, w)]]
+         [c EXCEPT !.e = e1, !.vals = [i \in DOMAIN @ |-> FillM(@[i], d.vals[i], x, w, m)]]
 
-RECURSIVE FoldFill(_, _, _, _)
-FoldFill(c, d, rows, ws) ==
+Fill(c, d, x, w) == FillM(c, d, x, w, "row")
+
+RECURSIVE FoldFillM(_, _, _, _, _)
+FoldFillM(c, d, rows, ws, m) ==
   IF rows = <<>> THEN c
-  ELSE FoldFill(Fill(c, d, Head(rows), Head(ws)), d, Tail(rows), Tail(ws))
+  ELSE FoldFillM(FillM(c, d, Head(rows), Head(ws), m), d, Tail(rows), Tail(ws), m)
+FoldFill(c, d, rows, ws) == FoldFillM(c, d, rows, ws, "row")
 
 -----------------------------------------------------------------------------
 (* Raises(c, d, x, w): does fill(x, w) reach a quantity that fails for x?   *)
@@ -286,6 +293,51 @@ InstalledIds(d) ==      \* sequence of share ids at installed positions (with mu
     [] OTHER -> own
 SharedFillable(d) ==
   LET ids == InstalledIds(d) IN \E i, j \in DOMAIN ids : i # j /\ ids[i] = ids[j]
+
+-----------------------------------------------------------------------------
+(* Guards of named deviations (known findings, DESIGN 9)                    *)
+
+(* a Count reachable from a collection root through collections only: with  *)
+(* a scalar weight the vectorised fill cannot tell it the batch length       *)
+RECURSIVE CountBelowCollections(_)
+CountBelowCollections(d) ==
+  CASE d.k = "Count" -> TRUE
+    [] d.k \in {"Label", "UntypedLabel"} -> \E key \in DOMAIN d.pairs : CountBelowCollections(d.pairs[key])
+    [] d.k \in {"Index", "Branch"} -> \E i \in DOMAIN d.vals : CountBelowCollections(d.vals[i])
+    [] OTHER -> FALSE
+LeadCount(d) == d.k \in {"Label", "UntypedLabel", "Index", "Branch"} /\ CountBelowCollections(d)
+
+(* the operands' roots agree (what the root's += checks before it starts to  *)
+(* mutate) but something below does not                                      *)
+RootCompat(da, db) ==
+  /\ da.k = db.k
+  /\ CASE da.k = "Bag" -> da.range = db.range
+       [] da.k = "Bin" -> da.num = db.num /\ da.lo = db.lo /\ da.hi = db.hi
+       [] da.k = "SparselyBin" -> da.width = db.width /\ da.origin = db.origin
+       [] da.k = "CentrallyBin" -> da.centers = db.centers
+       [] da.k = "IrregularlyBin" -> da.edges = db.edges
+       [] da.k = "Stack" -> da.thresholds = db.thresholds
+       [] da.k \in {"Label", "UntypedLabel"} -> DOMAIN da.pairs = DOMAIN db.pairs
+       [] da.k \in {"Index", "Branch"} -> Len(da.vals) = Len(db.vals)
+       [] OTHER -> TRUE
+
+(* an empty sparse container whose declared child has a named quantity       *)
+RECURSIVE EmptySparseNamed(_, _)
+EmptySparseNamed(c, d) ==
+  CASE d.k \in LeafKinds -> FALSE
+    [] d.k = "Bin" -> \/ \E i \in DOMAIN c.vals : EmptySparseNamed(c.vals[i], d.value)
+                      \/ EmptySparseNamed(c.under, d.under) \/ EmptySparseNamed(c.over, d.over) \/ EmptySparseNamed(c.nan, d.nan)
+    [] d.k = "SparselyBin" -> \/ (DOMAIN c.bins = {} /\ HasQ(d.value) /\ d.value.nm # "")
+                              \/ \E key \in DOMAIN c.bins : EmptySparseNamed(c.bins[key], d.value)
+                              \/ EmptySparseNamed(c.nan, d.nan)
+    [] d.k = "Categorize" -> \/ (DOMAIN c.bins = {} /\ HasQ(d.value) /\ d.value.nm # "")
+                             \/ \E key \in DOMAIN c.bins : EmptySparseNamed(c.bins[key], d.value)
+    [] d.k \in SeqBinKinds -> \/ \E i \in DOMAIN c.bins : EmptySparseNamed(c.bins[i], d.value)
+                              \/ EmptySparseNamed(c.nan, d.nan)
+    [] d.k = "Fraction" -> EmptySparseNamed(c.num, d.value) \/ EmptySparseNamed(c.den, d.value)
+    [] d.k = "Select" -> EmptySparseNamed(c.cut, d.cut)
+    [] d.k \in {"Label", "UntypedLabel"} -> \E key \in DOMAIN d.pairs : EmptySparseNamed(c.pairs[key], d.pairs[key])
+    [] d.k \in {"Index", "Branch"} -> \E i \in DOMAIN d.vals : EmptySparseNamed(c.vals[i], d.vals[i])
 
 -----------------------------------------------------------------------------
 (* Merge(a, b): a + b                                                       *)
